@@ -1,6 +1,7 @@
 package main
 
 import (
+	"strings"
 	"fmt"
 	"go/token"
 
@@ -184,6 +185,17 @@ func init() {
 			c.Check(okRange, "credit-sums-all-streams", c.P.Pos(g.Pos()), "iterates over a.streams", "credit no longer sums over all streams")
 			calls := callsIn(g, gnb)
 			c.Check(len(calls) == 1 && len(loopBlocks(calls[0].Block())) > 0, "credit-per-stream-bytes", c.P.Pos(g.Pos()), "adds s.getNumBytesInReassemblyQueue() for each stream", "per-stream reassembly bytes not accumulated")
+			for _, call := range calls {
+				var extra []string
+				for _, f := range DomFacts(call.Block()) {
+					if isLoopBound(f.Cond) || isRangeOK(f.Cond) {
+						continue
+					}
+					extra = append(extra, fmt.Sprintf("%s=%v", shortValue(c.P, f.Cond), f.Taken))
+				}
+				c.Check(len(extra) == 0, "credit-skips-no-stream", c.Pos(call), "every registered stream's bytes are counted (no condition skips a stream)",
+					"some streams are left out of the advertised-window computation: "+strings.Join(extra, ", ")+" (bytes held for them are not charged, so the window never closes while memory grows)")
+			}
 			for _, r := range allReturns(g) {
 				v := r.Results[0]
 				if IsConstInt(0)(v) {
@@ -313,4 +325,14 @@ func init() {
 				c.Check(okRet, "limit-error-propagates", c.Pos(pc), "Stream.handleData returns pushWithError's error (⇒ ABORT, C03.R8)", "reassembly limit error is swallowed")
 			}
 		}})
+}
+
+// isRangeOK: the "more elements" flag of a range-over-map/string iteration.
+func isRangeOK(v ssa.Value) bool {
+	ex, ok := v.(*ssa.Extract)
+	if !ok || ex.Index != 0 {
+		return false
+	}
+	_, isNext := ex.Tuple.(*ssa.Next)
+	return isNext
 }
